@@ -17,7 +17,7 @@ def run(m, chk):
         "weighted inner product that reproduction tests cannot see); the interpolation nodes, both knot vectors and both weight vectors reach the least-squares matrices at both lstsq call sites (ARG-FLOW); the committed "
         "control points depend on them (DEP-MAY); the source curve is not modified. Orthogonality, optimality and the meaning of the returned error are not decided."
     )
-    chk.decides = ["PAIR (func2func)", "ARG-FLOW", "DEP-MAY of the committed points", "PURE(other)"]
+    chk.decides = ["PAIR (func2func)", "ARG-FLOW", "DEP-MAY of the committed points", "PURE(other)", 'POLY-ONLY']
     chk.not_decided = ["L2-orthogonality of the residual", "D = C when C lies in S", "sign / scale of the returned error"]
     pairing(r, chk, ["heavy.LeastSquare.func2func"], floor=4)
     fit_flow(r, chk)
